@@ -7,16 +7,19 @@ Text.allMatches (driver engine `text`), plus dynamic certificates from the hooks
 Theorems in Thm/C01.lean are re-checked on every run.
 """
 import binascii
-from vf import core
+from vf import core, acbuild
 
-THM = ["YaraModel.Thm.C01", "YaraModel.Thm.AcCert"]
+THM = ["YaraModel.Thm.C01", "YaraModel.Thm.AcCert", "YaraModel.Thm.AcBuild"]
 MANIFEST = dict(
     technique="Lean 4 proofs (atoms cover every variant for every window choice; verify = spec; sorted de-duplicated insertion; pipeline = spec for every complete candidate set) + spec-level correspondence of the real engine against the Lean specification",
     text="proof: Thm/C01.lean proves for ALL strings, ALL legal modifier sets / xor ranges, ALL atom-window choices (hence all quality heuristics) and ALL buffers that the "
          "modelled pipeline (atoms -> candidates -> literal verification -> ordered insertion) reports exactly Text.allMatches (the documented occurrences, ascending, no duplicates, "
          "true length and key) provided the candidate stage is complete; the model is tied to the code by diffing the real scanner's match lists with the Lean spec on "
          "adversarially planted buffers, and completeness of the real automaton stage is checked per case through the atom/candidate hooks. base64/base64wide are checked "
-         "against the spec of the three documented alternatives (sampled).",
+         "against the spec of the three documented alternatives (sampled). Thm/AcBuild.lean proves, for EVERY list of non-empty atoms and EVERY buffer, that the automaton "
+         "the modelled construction builds (ahocorasick.c: trie insertion, BFS failure links with match-list inheritance, failure-link optimisation, first-fit table packing "
+         "with growth) reports exactly the atom occurrences (build_sound; zero-length atoms are outside the theorem); that model is tied to the code by requiring the tables "
+         "it builds from the logged atoms to EQUAL the real transition/match tables and match pool, entry for entry, on every generated rule set (sampled).",
     design_ref="DESIGN.md §5 C01",
     note=core.TB + "Hooks H3/H4 are trusted to report truthfully. Buffers are single blocks.")
 
@@ -309,6 +312,9 @@ def run(tier, replay=None):
     lres = core.lean_check(THM)
     core.proof_coverage(chk, lres, THM)
     b = core.build("asan", harness=["h_scan"])
+    if replay and replay.get("acbuild"):                 # a filed construction mismatch: recompile that rule set, rebuild, compare
+        core.handle_broken_proof(chk, lres, acbuild.replay(chk, b, replay))
+        return chk.finish("proof")
     r = core.rng("C01")
     n = 3000 if tier == "quick" else 150000
     cases, hl, dl = [], [], []
@@ -371,6 +377,11 @@ def run(tier, replay=None):
             chk.violation("ac_cert_%d.json" % i, {"kind": "Aho-Corasick certificate fails on the compiled tables (candidates are not provably the atom occurrences) or the table-driven scan model disagrees with the real candidate list",
                                                   "driver": l, "case": [c for c in cases if c["id"] == cid][:1], "engine": "ac"}, no_input=True)
             found = True
+        # construction tie (Thm/AcBuild): the Lean model of ahocorasick.c must build EXACTLY these tables from the logged atoms
+        found = acbuild.report(chk, acbuild.compare(impl), {h.split(" ", 1)[0]: h for h in hl}, "case") or found
+        certs_ac["construction_model_equal"] = dict(acbuild.compare.last)
+        if not replay:
+            found = acbuild.run_extra(chk, b, core.rng("C01-acbuild"), "text", tier) or found
         mi = {l.split(" ", 1)[0]: l for l in impl}
         mm = {l.split(" ", 1)[0]: l for l in model}
         for c, h, d in zip(cases, hl, dl):
